@@ -45,3 +45,4 @@ def rules(ctx):
     S.survey2_rules(ctx)
     S.oldest_search_rules(ctx)
     S.snapshot_atomic_rules(ctx)
+    S.round4_residue_rules(ctx)
